@@ -130,6 +130,10 @@ def judge(case, impl, model):
                 fails.append(("inherited-field-default", f"{name}.{f['field']} default differs from {f['owner']}: {f['default_diff']}"))
         if obs.get("abstract_instantiated"):
             fails.append(("abstract-instantiable:direct-subclass", f"{name}() of a direct AbstractStructure subclass did not raise the abstract TypeError"))
+        for br in obs.get("base_rejects", []):
+            fails.append(("base-rejects-what-sub-accepts",
+                          f"{name}(**kw) is accepted but base {br['base']} raises {br['err']} ({br['msg']}) on the same "
+                          f"arguments restricted to its fields: {json.dumps(br['kw'])[:200]}"))
         if not obs.get("bases_unchanged", True):
             fails.append(("base-changed-by-subclassing", f"defining {name} changed one of its bases"))
     return msg, fails
